@@ -113,8 +113,37 @@ func refRange(args []float64) (out []float64, mustErr, mayErr bool) {
 }
 
 func run(w *core.Worker, c Case) {
+	// Every second case hands its slice arguments over with spare capacity behind them (filled with
+	// values that would distort every answer): a helper that consults cap where it means len, or that
+	// reslices beyond the length, becomes observable. Empty inputs are tried in all three shapes.
+	if len(c.S) == 0 && len(c.Maps) == 0 && len(c.Args) == 0 {
+		runWith(w, c, 1)
+		runWith(w, c, 2)
+		runWith(w, c, 0)
+		return
+	}
+	runWith(w, c, int(core.HashString(core.JSON(c))%3))
+}
+
+func runWith(w *core.Worker, c Case, sp int) {
 	fail := func(sig, format string, a ...any) { w.Violation("c13."+c.Fn+"."+sig, fmt.Sprintf(format, a...)) }
 	s := c.S
+	if sp > 0 {
+		buf := make([]int, len(c.S), len(c.S)+2*sp)
+		copy(buf, c.S)
+		for i, rest := 0, buf[len(buf):cap(buf)]; i < len(rest); i++ {
+			rest[i] = []int{-1 << 40, 1 << 40, c.V}[i%3]
+		}
+		s = buf
+		ms := make([]map[string]int, len(c.Maps), len(c.Maps)+sp)
+		copy(ms, c.Maps)
+		for i, rest := 0, ms[len(ms):cap(ms)]; i < len(rest); i++ {
+			rest[i] = map[string]int{"a": []int{-1 << 40, 1 << 40}[i%2]}
+		}
+		if c.Maps != nil {
+			c.Maps = ms
+		}
+	}
 	nontrivial := len(s) >= 2
 	p := core.Catch(func() {
 		switch c.Fn {
